@@ -62,6 +62,9 @@ pub fn main() -> i32 {
         return 2;
     }
     crate::kit::panics::install();
+    if std::env::var("VERIF_DEBUG_ENTROPY").is_ok() {
+        crate::kit::entropy::DEBUG.store(true, std::sync::atomic::Ordering::SeqCst);
+    }
     // Panics in code under test are recorded (location + message), not printed.
     crate::kit::panics::quiet(args[0] != "trace");
     match args[0].as_str() {
@@ -71,13 +74,19 @@ pub fn main() -> i32 {
             crate::kit::panics::quiet(true);
             let seed: u64 = args[4].parse().unwrap();
             println!("START {seed}");
-            watchdog_arm(seed);
             let r = props::run_case(&args[1], &args[2], seed, false, &args[3]);
-            watchdog_disarm();
             println!("RESULT {}", serde_json::to_string(&r).unwrap());
             0
         }
         "trace" => trace(&args[1..]),
+        // `check trace-after <engine> <mode> <seed> <earlier seeds...>`: runs the earlier seeds
+        // in this process first (leakage of state between runs shows as a different trace).
+        "trace-after" => {
+            for s in &args[4..] {
+                let _ = props::run_case(&args[1], &args[2], s.parse().unwrap(), false, "-");
+            }
+            trace(&args[1..4])
+        }
         "selftest-determinism" => selftest_determinism(&args[1..]),
         "survey" => survey(&args[1..]),
         "list" => {
@@ -100,45 +109,6 @@ pub fn main() -> i32 {
             }
         },
     }
-}
-
-/// Wall-clock budget of one simulated run.  A run which exceeds it is hung (simulated runs take
-/// milliseconds to seconds; nothing in them waits for real time): the worker aborts, which the
-/// parent reports as a `process_aborted` violation attributed to the announced seed.
-fn run_timeout_s() -> u64 {
-    std::env::var("VERIF_RUN_TIMEOUT_S").ok().and_then(|s| s.parse().ok()).unwrap_or(300)
-}
-
-static RUN_STARTED: std::sync::atomic::AtomicU64 = std::sync::atomic::AtomicU64::new(0);
-static RUN_SEED: std::sync::atomic::AtomicU64 = std::sync::atomic::AtomicU64::new(0);
-
-fn unix_now() -> u64 {
-    std::time::SystemTime::now().duration_since(std::time::UNIX_EPOCH).map(|d| d.as_secs()).unwrap_or(0)
-}
-
-fn watchdog_arm(seed: u64) {
-    use std::sync::atomic::Ordering::SeqCst;
-    static STARTED: std::sync::Once = std::sync::Once::new();
-    RUN_SEED.store(seed, SeqCst);
-    RUN_STARTED.store(unix_now(), SeqCst);
-    STARTED.call_once(|| {
-        let limit = run_timeout_s();
-        std::thread::Builder::new()
-            .name("watchdog".into())
-            .spawn(move || loop {
-                std::thread::sleep(std::time::Duration::from_secs(1));
-                let t = RUN_STARTED.load(SeqCst);
-                if t != 0 && unix_now().saturating_sub(t) > limit {
-                    eprintln!("watchdog: run of seed {} did not finish within {limit} s of wall-clock time (hang or deadlock in the code under test)", RUN_SEED.load(SeqCst));
-                    std::process::abort();
-                }
-            })
-            .expect("watchdog thread");
-    });
-}
-
-fn watchdog_disarm() {
-    RUN_STARTED.store(0, std::sync::atomic::Ordering::SeqCst);
 }
 
 /// Seed of the i-th run of a batch.
@@ -176,9 +146,7 @@ fn worker(a: &[String]) -> i32 {
             writeln!(o, "START {seed}").unwrap();
             o.flush().unwrap();
         }
-        watchdog_arm(seed);
         let mut r = props::run_case(engine, mode, seed, false, prop);
-        watchdog_disarm();
         if r.violations.iter().any(|v| &v.property == prop) {
             // Re-run with full log and write the replay file.
             r.replay = props::write_replay(engine, mode, seed, prop, &r);
